@@ -324,10 +324,15 @@ def cases(ctx):
         if f == 'is_valid_mac':
             for odd in (None, 10, b'aa:bb:cc:dd:ee:ff', []):
                 out.append((f, odd, REJECT))
+    # the same texts as instances of a str subclass (a sample: every 7th case)
+    class Text(str):
+        pass
+    out += [(f, Text(a), c) for i, (f, a, c) in enumerate(list(out))
+            if isinstance(a, str) and type(a) is str and i % 7 == 0]
     # de-duplicate
     seen, res = set(), []
     for c in out:
-        k = (c[0], repr(c[1]))
+        k = (c[0], type(c[1]).__name__, repr(c[1]))
         if k not in seen:
             seen.add(k)
             res.append(c)
